@@ -3,7 +3,7 @@
    prep event, the exec / fallback events of the items in real-time order, the pseudo-events
    CPark (gated concurrent runs: the set of exec calls in flight at a quiescent point) and
    the batch-post event with the items and result slots handed to post. *)
-From Flyt Require Import Base Script FlowTable Engine EngineCorr.
+From Flyt Require Import Base Script FlowTable Engine EngineCorr ItemMon.
 
 Record bview := {
   bv_cfg : ucfg; bv_conc : nat; bv_stop : bool; bv_node : nid;
@@ -234,8 +234,19 @@ Definition spec_C09_view (canc : bool) (v : bview) : bool :=
    else stop_walk v true false false [] [] false (bv_mid v)).
 
 (* ---------------------------------------------------------------- C11 *)
+(* what is done on behalf of an item is a prefix of a processing of that item (the per-item monitor
+   of Spec/ItemMon.v never rejects: C07_item_processing_independent, for every schedule, cancelled
+   or not): in particular a fallback only after the whole budget of failed attempts *)
+Definition items_mon_ok (v : bview) : bool :=
+  if distinct_items v && has_exec (bv_cfg v) then
+    forallb (fun i => match irun (bv_cfg v) (bv_node v) (nth i (bv_items v) VNil) (evs_of v i) with
+                      | IBad => false
+                      | _ => true
+                      end) (seq 0 (length (bv_items v)))
+  else true.
+
 Definition spec_C11_view (canc : bool) (v : bview) : bool :=
-  spec_C06_view v &&
+  spec_C06_view v && items_mon_ok v &&
   (if negb (distinct_items v) then true
    else if canc then negb (existsb is_exec_ev (bv_mid v))       (* cancelled before the run: nothing runs *)
    else stop_walk v false true true [] [] false (bv_mid v)).
@@ -295,3 +306,6 @@ Definition fw_clause (sc : escen) (ob : eobs) : bool :=
              | None => true
              end) ob.
 Definition spec_C05x (sc : escen) (ob : eobs) : bool := spec_C05 sc ob && fw_clause sc ob.
+(* the same clause for C04: a run in which every callback succeeded cannot fail with an error the
+   framework made up, unless the scenario has a cause for one *)
+Definition spec_C04x (sc : escen) (ob : eobs) : bool := spec_C04 sc ob && fw_clause sc ob.
